@@ -971,15 +971,18 @@ class ConcretePath(_PathBase):
     def __init__(self, inputs, tol=1e-6):
         _PathBase.__init__(self)
         self.given = dict(inputs)
+        self.defaulted = []
         self.tol = Fraction(tol)
         self.solver = z3.Solver()
         self.solver.set("timeout", 60000)
         self.used = set()
 
-    def _get(self, name):
+    def _get(self, name, default=0):
         name = self._uniq(name)
         if name not in self.given:
-            raise HarnessError("replay input %s missing" % name)
+            # an input created after the point at which the replayed failure was recorded: any valid value will do
+            self.defaulted.append(name)
+            return name, default
         self.used.add(name)
         return name, from_jsonable_num(self.given[name])
 
@@ -998,13 +1001,13 @@ class ConcretePath(_PathBase):
         return bool(self.choice(name, 2, ["no", "yes"]))
 
     def real(self, name, lo=None, hi=None):
-        name, v = self._get(name)
+        name, v = self._get(name, default=(lo if lo is not None else (hi if hi is not None else 0)))
         v = float(v)
         self.inputs[name] = v
         return v
 
     def int(self, name, lo, hi):
-        name, v = self._get(name)
+        name, v = self._get(name, default=lo)
         self.inputs[name] = int(v)
         return int(v)
 
